@@ -39,7 +39,7 @@ def _nest(rng, level, st):
         return 'catch %d %s' % (st['catch'], inner)
     if r < 0.32: return 'as %s %s' % (rng.choice(('a', 'b', 'c')), inner)
     if r < 0.4: return 'fp %s' % inner
-    if r < 0.47: return 'fpb %s' % inner
+    if r < 0.47: return 'fpb %s' % inner if rng.random() < 0.6 else 'spread %s' % inner
     if r < 0.55: return 'filter %d %s' % (rng.randint(1, 2), inner)
     if r < 0.62: return 'map %d %s' % (rng.randint(1, 2), inner)
     if r < 0.68: return 'sort %s' % inner
